@@ -24,6 +24,7 @@ def one(d):
                 reported.append(f"{pid}: " + ", ".join(sorted(set(re.findall(r"^\s+(C\d+\.[\w/-]+) at ", c.stdout, re.M)))))
             elif c.returncode == 2:
                 errors.append(f"{pid}: " + next((l for l in c.stdout.splitlines() if "ANALYSIS-ERROR" in l), "")[:200])
+        meta.pop("recheck_error", None)
         meta["reported_by"] = reported
         meta["analysis_errors"] = errors
         meta["check_exits"] = {k: v for k, v in exits.items() if v}
@@ -42,4 +43,6 @@ dirs = sorted(glob.glob(os.path.join(VERIF, "seeded", "*")))
 with ThreadPoolExecutor(max_workers=6) as ex:
     for m in ex.map(one, dirs):
         own = "own" if m.get("caught_by_own_property") else ("any" if m.get("reported_by") else "MISSED")
+        if m.get("recheck_error"):
+            own = "STALE"  # the stored patch no longer applies to /repo: re-express it on the current tree
         print(f"{m['id']:45} {m['property']} {own:6} {'; '.join(m.get('reported_by', []))} {' '.join(m.get('analysis_errors', []))[:120]}")
